@@ -32,7 +32,7 @@ package ice
 //@   ensures C03 C04 stored: a.getSelectedPair() == pair
 //@   ensures C04 selecting-reports-connected: pair != nil ==> a.connectionState == ConnectionStateConnected
 //@   ensures C04 unselecting-keeps-the-state: pair == nil ==> a.connectionState == old(a.connectionState)
-//@   ensures C06 C03 select-touches-only-selection-and-state: pair != nil ==> unchangedExcept("H_ice.Agent.selectedPair*", "H_ice.CandidatePair.nominated", "H_ice.Agent.connectionState", "H_ice.handlerNotifier.*", "E_ice.ConnectionState", "E_*ice.CandidatePair", "H_ice.Agent.onConnectedOnce", "Chan.closed", "H_sync.WaitGroup*")
+//@   ensures C06 C03 select-touches-only-selection-and-state: pair != nil ==> unchangedExcept("H_ice.Agent.selectedPair*", "H_ice.CandidatePair.nominated", "H_ice.Agent.connectionState", "H_ice.Agent.checkingEpoch", "H_ice.handlerNotifier.*", "E_ice.ConnectionState", "E_*ice.CandidatePair", "H_ice.Agent.onConnectedOnce", "Chan.closed", "H_sync.WaitGroup*")
 //@   ensures C04 C06 unselect-touches-only-selection: pair == nil ==> unchangedExcept("H_ice.Agent.selectedPair*")
 
 //@ func (*controlledSelector).shouldAcceptNomination
